@@ -164,6 +164,12 @@ def gen_cases(tier, rng):
                  'numeric_strings', 'nan_first_cell', 'nan_middle', 'nan_last_cell', 'none_value', 'nan_unused_column',
                  'datetime_column', 'nan_float32_column', 'nan_float16_column', 'nan_in_nullable_float_column']:
         add(group='data', host='-', wrap='-', fault=name, entry='database', db='-', expect='BiogemeError')
+    # histories: the SAME objects are first evaluated on a valid specification, then the fault appears (a validation remembered from
+    # an earlier evaluation must not let it through)
+    for name in ['catalog_switched_to_member_with_rv_outside_integral', 'catalog_switched_to_member_with_draws_outside_mc',
+                 'function_after_its_column_was_removed']:
+        add(group='history', host='-', wrap='-', fault=name, entry='expr', db='-', expect='BiogemeError')
+    add(group='history', host='-', wrap='-', fault='catalog_switched_back_to_the_valid_member', entry='expr', db='-', expect='number')
     for name in ['nan_after_construction', 'string_after_construction']:
         add(group='data', host='-', wrap='-', fault=name, entry='biogeme', db='-', expect='BiogemeError')
     add(group='valid', host='-', wrap='-', fault='clean_int_and_float_columns', entry='database', db='-', expect='number')
@@ -456,6 +462,40 @@ def execute(case):
         if case['expect'] == 'value':
             out['want'] = expected_value_unselected(case) if case['wrap'] == 'none' else None
         return out
+
+    if g == 'history':
+        f = case['fault']
+
+        def run():
+            from biogeme.catalog import Catalog
+            from biogeme.expressions import Integrate, MonteCarlo, RandomVariable, bioDraws
+            d = db.Database('c12hist', base_frame())
+            if f == 'function_after_its_column_was_removed':
+                e = Beta('b', 0.5, None, None, 0) * Variable('x') + Variable('y')
+                fn = e.create_function(database=d, number_of_draws=4, gradient=False, hessian=False, bhhh=False)
+                fn([0.5])
+                d.data.drop(columns=['x'], inplace=True)
+                return fn([0.5]).function
+            omega = RandomVariable('omega_h')
+            density = exp(-omega * omega / 2) / math.sqrt(2 * math.pi)
+            if f == 'catalog_switched_to_member_with_draws_outside_mc':
+                xi = bioDraws('xi_h', 'UNIFORM')
+                valid = Variable('x') * MonteCarlo(xi)
+                faulty = Variable('x') * MonteCarlo(xi) + xi
+            else:
+                valid = Variable('x') * Integrate(density, 'omega_h')
+                faulty = Variable('x') * Integrate(density, 'omega_h') + omega
+            cat = Catalog.from_dict('c12_spec', {'valid': valid, 'faulty': faulty})
+            cat.get_value_c(database=d, number_of_draws=4, prepare_ids=True)
+            cat.select_expression('c12_spec', 1)
+            if f == 'catalog_switched_back_to_the_valid_member':
+                try:
+                    cat.get_value_c(database=d, number_of_draws=4, prepare_ids=True)
+                except BiogemeError:
+                    pass
+                cat.select_expression('c12_spec', 0)
+            return sum(cat.get_value_c(database=d, number_of_draws=4, prepare_ids=True))
+        return outcome(run)
 
     if g == 'warning':
         f = case['fault']
